@@ -915,6 +915,16 @@ def watch_history(ctx, res, cp, prop, h, length=5, stack=False, ext_sources=Fals
                         break
                 if "Re-checking" not in out:
                     ignored_steps.add(k)
+            if not symlinked and k not in infolder_steps and k not in old_mtime_steps and "Re-checking" not in out:
+                # an ordinary save that drew no re-check: saved twice more (an event may be lost once)
+                for _again in range(2):
+                    _write(path, src)
+                    time.sleep(4)
+                    out = open(logpath, "rb").read()[before:].decode("utf-8", "replace")
+                    if "Re-checking" in out:
+                        break
+                if "Re-checking" not in out:
+                    ignored_steps.add(k)
             if k in old_mtime_steps and "Re-checking" not in out:
                 # no re-check for a file moved into place? the same delivery twice more (a lost event is possible
                 # once; three times in a row it is the watcher that ignores the change)
@@ -955,7 +965,7 @@ def watch_history(ctx, res, cp, prop, h, length=5, stack=False, ext_sources=Fals
             # the new text was moved into place three times and never looked at: what `watch` shows is the
             # verdict on a text that is gone
             res.violate("%s/watch-ignores-a-change" % prop,
-                        "version #%d was moved into place (three times) without any re-check; `lace watch` still shows %s, a fresh `lace check` of the file reports %s"
+                        "version #%d was saved three times without any re-check; `lace watch` still shows %s, a fresh `lace check` of the file reports %s"
                         % (k + 1, "success" if shown_ok else "an error", "success" if fresh_ok else "an error"), detail)
             continue
         if not checks:
